@@ -1,7 +1,7 @@
 (* C13 — casts are exact-or-error and text round-trips every value.
    Property statements only: each is closed by `exact <lemma>` from proofs/ and pinned with
    Print Assumptions.  Models (re-transcribed after the repairs a2e764fa7, 40311688b, ba9d5049d,
-   7b11b6c5d): model/Cast.v (num-traits NumCast + cast/builtin/to_decimal.rs, to_primitive.rs,
+   7b11b6c5d, PENDING-1): model/Cast.v (num-traits NumCast + cast/builtin/to_decimal.rs, to_primitive.rs,
    arrays/scalar/decimal.rs, expr/cast_expr.rs), model/TextConv.v (cast/parse.rs, cast/format.rs,
    core integer text, chrono date text), model/Calendar.v; gen/TablesCast.v is regenerated from
    the source on every run.  `..._refuted` / `..._open` theorems state that the full-strength
@@ -54,15 +54,51 @@ Theorem C13_int_to_decimal_exact_or_error : forall oc s d p sc v,
 Proof. exact int_to_decimal_exact_or_error. Qed.
 Print Assumptions C13_int_to_decimal_exact_or_error.
 
-(* 5. float -> DECIMAL(p,s): within the precision (the value is round(fl(v * fl(10^s))), see 8) *)
+(* 5. float -> DECIMAL(p,s): within the precision (the value is round(fl64(v * fl64(10^s))), see 8) *)
 Theorem C13_float_to_decimal_fits_or_error : forall oc f d p sc bits r, std_dty d -> 0 <= p ->
   float_to_decimal oc f d p sc bits = Ok r -> Z.abs r < 10 ^ p.
 Proof. exact float_to_decimal_fits_or_error. Qed.
 Print Assumptions C13_float_to_decimal_fits_or_error.
 
-(* 6. decimal -> decimal, any two (p,s): a result respects the target precision AND is the exactly
-      scaled (upscale) / round-half-away (downscale) value; never a panic
-      (rescale_respects_precision + rescale_rounds_half_away) *)
+(* 5a. float -> DECIMAL(p,s) at full strength where the product v * 10^s is representable: for every
+      float (-1)^neg * m * 2^e of any format whose scaled mantissa m * 5^s fits the 53 bits of an f64,
+      the cast IS round_half_away(v * 10^s) of the exact binary value when that fits the precision,
+      an error otherwise *)
+Theorem C13_float_to_decimal_exact_when_representable : forall oc f d p s bits neg m e,
+  std_dty d -> 0 <= p <= d_maxp d -> 0 <= s <= 22 ->
+  decode f bits = FFin neg m e -> 0 <= m -> m * 5 ^ s < 2 ^ 53 -> -1074 <= e -> e + s <= 971 ->
+  float_to_decimal oc f d p s bits =
+  (let r := signed neg (if 0 <=? e then m * 10 ^ s * 2 ^ e else rha_div (m * 10 ^ s) (2 ^ (- e))) in
+   if Z.abs r <? 10 ^ p then Ok r else Err).
+Proof.
+  intros oc f d p s bits neg m e Hd Hp Hs Hdec Hm Hfit Hlo Hhi.
+  rewrite (float_to_decimal_exact_when_representable oc f d p s bits neg m e Hd Hp Hs Hdec Hm Hfit Hlo Hhi).
+  unfold float_decimal_spec. rewrite Hdec. reflexivity.
+Qed.
+Print Assumptions C13_float_to_decimal_exact_when_representable.
+
+(* 5b. in particular EVERY f32 bit pattern (zero, subnormals, NaN, infinities) and every scale 0..12 *)
+Theorem C13_float32_to_decimal_exact_or_error : forall oc d p s bits,
+  std_dty d -> 0 <= p <= d_maxp d -> 0 <= s <= 12 ->
+  float_to_decimal oc F32 d p s bits = float_decimal_spec F32 p s bits.
+Proof. exact float32_to_decimal_exact_or_error. Qed.
+Print Assumptions C13_float32_to_decimal_exact_or_error.
+
+(* 6. decimal -> decimal at FULL strength (cast_to_decimal_fits_or_error + rescale_rounds_half_away as
+      one equation): every value of the source type, every pair of scales at most one full precision
+      of the wider type apart (all scales 0..p of any two decimal types): the exactly scaled
+      (upscale) / round-half-away (downscale) value when it fits DECIMAL(p2,s2), otherwise an error *)
+Theorem C13_rescale_exact_or_error : forall oc d1 d2 s1 p2 s2 v,
+  std_dty d1 -> std_dty d2 -> Z.abs v < 10 ^ d_maxp d1 -> 0 <= p2 <= d_maxp d2 ->
+  Z.abs (s1 - s2) <= Z.max (d_maxp d1) (d_maxp d2) ->
+  decimal_to_decimal oc d1 d2 s1 p2 s2 v =
+  (let d := if s1 <=? s2 then v * 10 ^ (s2 - s1)
+            else Z.sgn v * ((2 * Z.abs v + 10 ^ (s1 - s2)) / (2 * 10 ^ (s1 - s2))) in
+   if Z.abs d <? 10 ^ p2 then Ok d else Err).
+Proof. exact rescale_exact_or_error. Qed.
+Print Assumptions C13_rescale_exact_or_error.
+
+(* 6a. soundness without any bound on the scales or the value of the primitive *)
 Theorem C13_rescale_respects_precision_and_rounds_half_away : forall oc d1 d2 s1 p2 s2 v r,
   std_dty d1 -> std_dty d2 -> in_range (d_prim d1) v = true -> 0 <= p2 ->
   decimal_to_decimal oc d1 d2 s1 p2 s2 v = Ok r ->
@@ -78,16 +114,18 @@ Theorem C13_rescale_never_panics : forall oc d1 d2 s1 p2 s2 v,
 Proof. exact rescale_never_panics. Qed.
 Print Assumptions C13_rescale_never_panics.
 
-(* 7. OPEN (the converse of 6 is false): Decimal128 -> Decimal64 converts the unscaled value to
-      i64 before dividing, a representable result is refused *)
-Theorem C13_rescale_narrows_before_downscale_open :
-  decimal_to_decimal true D128 D64 5 18 0 9999999999999999999 = Err /\ rescale_spec 5 18 0 9999999999999999999 = Ok 100000000000000.
-Proof. exact rescale_narrows_before_downscale. Qed.
-Print Assumptions C13_rescale_narrows_before_downscale_open.
+(* 7. the two former counterexamples to the converse of 6a are now values of the function *)
+Theorem C13_rescale_former_witnesses :
+  decimal_to_decimal true D128 D64 5 18 0 9999999999999999999 = Ok 100000000000000
+  /\ decimal_to_decimal true D128 D64 20 18 0 150000000000000000000 = Ok 2.
+Proof. exact (conj (proj2 (proj2 old_rescale_narrows_before_downscale)) (proj2 (proj2 old_rescale_factor_exceeds_target_primitive))). Qed.
+Print Assumptions C13_rescale_former_witnesses.
 
-(* 8. OPEN: float -> decimal rounds twice: f64 1.115 (exactly 1.1149999999999999911...) -> 1.12 *)
+(* 8. OPEN: float -> decimal still rounds twice where the product is not representable (f64, and f32
+      with a scale above 12): f64 1.115 (exactly 1.1149999999999999911...) -> 1.12, specified 1.11 *)
 Theorem C13_float_to_decimal_double_rounding_open :
-  float_to_decimal true F64 D64 5 2 4607700332757165015 = Ok 112.
+  float_to_decimal true F64 D64 5 2 4607700332757165015 = Ok 112
+  /\ float_decimal_spec F64 5 2 4607700332757165015 = Ok 111.
 Proof. exact float_to_decimal_double_rounding. Qed.
 Print Assumptions C13_float_to_decimal_double_rounding_open.
 
@@ -176,6 +214,24 @@ Theorem C13_old_rescale_respects_precision_refuted :
                              /\ rescale_spec s1 p2 s2 v = Err.
 Proof. exact old_rescale_respects_precision_refuted. Qed.
 Print Assumptions C13_old_rescale_respects_precision_refuted.
+
+Theorem C13_old_rescale_in_target_primitive :
+  (Cast.Old.decimal_to_decimal_narrow true D128 D64 5 18 0 9999999999999999999 = Err
+   /\ rescale_spec 5 18 0 9999999999999999999 = Ok 100000000000000)
+  /\ (Cast.Old.decimal_to_decimal_narrow true D128 D64 20 18 0 150000000000000000000 = Err
+      /\ rescale_spec 20 18 0 150000000000000000000 = Ok 2).
+Proof.
+  exact (conj (conj (proj1 old_rescale_narrows_before_downscale) (proj1 (proj2 old_rescale_narrows_before_downscale)))
+              (conj (proj1 old_rescale_factor_exceeds_target_primitive) (proj1 (proj2 old_rescale_factor_exceeds_target_primitive)))).
+Qed.
+Print Assumptions C13_old_rescale_in_target_primitive.
+
+Theorem C13_old_float_to_decimal_source_format :
+  Cast.Old.float_to_decimal_srcfmt true F32 D64 18 9 1092091904 = Ok 9500000256
+  /\ float_decimal_spec F32 18 9 1092091904 = Ok 9500000000
+  /\ float_to_decimal true F32 D64 18 9 1092091904 = Ok 9500000000.
+Proof. exact old_float_to_decimal_source_format. Qed.
+Print Assumptions C13_old_float_to_decimal_source_format.
 
 Theorem C13_old_to_decimal_panics :
   (Cast.Old.int_to_decimal true (mk_ity true 32) D64 18 10 1 = Panic /\ Cast.Old.int_to_decimal false (mk_ity true 32) D64 18 10 1 = Ok 1410065408)
